@@ -389,6 +389,7 @@ func (h *Handle) ListObjectsV2WithContext(ctx aws.Context, in *s3.ListObjectsV2I
 	}
 	r.Outcome = "ok"
 	r.Len = len(ks)
+	r.Sum = sum([]byte(strings.Join(ks, "\n")))
 	h.recordLocked(r)
 	return out, nil
 }
@@ -422,4 +423,17 @@ func (m Mutation) Apply(objs map[string][]byte) {
 	} else {
 		delete(objs, m.Key)
 	}
+}
+
+// ClientLogDigest hashes everything a client has been answered so far (op, key, outcome, body digest).
+func (b *Bucket) ClientLogDigest(client string) string {
+	b.mu.Lock()
+	defer b.mu.Unlock()
+	h := sha256.New()
+	for _, r := range b.Log {
+		if r.Client == client {
+			fmt.Fprintf(h, "%s|%s|%s|%s|%d;", r.Op, r.Key, r.Outcome, r.Sum, r.Len)
+		}
+	}
+	return hex.EncodeToString(h.Sum(nil)[:8])
 }
